@@ -8,7 +8,7 @@
    - refutations with the Europe/Berlin table: F-C08-b (tp_wrap_refuted), F-C08-c (tp_stride_refuted).
    Across DST transitions the correspondence between [mk l1, mk l2) and wall-clock time is compared
    with the implementation on every run, not proved. *)
-From Icv Require Import Base.Tac Tp.TpModel Tp.TpProofs Tp.TpCal Tp.TpCalObs.
+From Icv Require Import Base.Tac Tp.TpModel Tp.TpProofs Tp.TpObs Tp.TpOracleProofs Tp.TpCal Tp.TpCalObs.
 Local Open Scope Z_scope.
 
 (* ---------------- calendar sanity (finite, bound in the statement) ---------------- *)
@@ -255,3 +255,42 @@ Theorem tp_stride_refuted :
   tp_spec_inside off mk true None tp_back ranges noon27 = false /\
   tp_spec_inside off mk true None tp_back ranges noon28 = true.
 Proof. vm_compute. repeat split; reflexivity. Qed.
+
+(* ---------------- the calendar oracle accepts the model (fixed offset) ---------------- *)
+
+(* for a zone without transitions (empty table, offset c) the oracle that is run over implementation
+   traces returns None on what the model computes, provided no probe of the window is reached by a
+   range of a day before the window's first local day (the recorded finding F-C08-b) *)
+Theorem tp_cal_step_ok_model_const c ranges prefer incs excs b e clear probes pre :
+  tp_ranges_bounded ranges ->
+  let off := fun _ : Z => c in
+  let mk := fun l : Z => l - c in
+  let post := tp_update_region true (tp_script_func off mk ranges) prefer incs excs b e clear pre in
+  (forall t d, In t probes -> tp_upd_begin b clear pre <= t < e ->
+               d < tp_local_day off (tp_upd_begin b clear pre) -> tp_day_covers off mk false ranges d t = false) ->
+  tp_cal_step_ok c [] ranges prefer incs excs b e clear probes pre post (map (tp_is_inside post) probes) = None.
+Proof.
+  intros Hb off mk post Hno. unfold tp_cal_step_ok.
+  rewrite TpOracleProofs.tp_ins_ok_model. cbn [negb]. subst post.
+  destruct (negb clear && (e <? tp_ve_num pre)) eqn:Hn.
+  { unfold tp_update_region. rewrite Hn. rewrite TpOracleProofs.tp_st_eqb_refl. reflexivity. }
+  assert (clear = false -> tp_ve_num pre <= e) as Hwin.
+  { intros ->. cbn [negb andb] in Hn. lia. }
+  rewrite (TpOracleProofs.tp_covers_b_true _ _ _ (tp_update_region_covers true _ prefer incs excs b e clear pre Hwin)).
+  cbn [negb].
+  change (tp_tab_off c []) with off.
+  set (b' := tp_upd_begin b clear pre) in *.
+  induction probes as [|t r IH]; [reflexivity|].
+  cbn [tp_cal_first_bad].
+  match goal with |- context [tp_cal_first_bad _ _ _ _ _ _ _ _ _ ?sg r] =>
+    assert (tp_cal_first_bad c [] ranges prefer incs excs b' e (tp_local_day off b') sg r = None) as IH' end.
+  { apply IH. intros t0 d Hin. apply Hno. right. exact Hin. }
+  destruct ((b' <=? t) && (t <? e)) eqn:Hw; [|exact IH'].
+  assert (b' <= t < e) as Ht by lia.
+  unfold tp_cal_classify, tp_cal_expect.
+  change (tp_tab_off c []) with off. change (tp_tab_mk c []) with mk.
+  rewrite tp_update_region_spec_b by exact Hwin.
+  rewrite tp_own_after_window by exact Ht. fold b'. subst off mk. cbv beta in *.
+  rewrite (tp_ranges_fixed_offset c ranges b' e t Ht Hb (fun d Hd => Hno t d (or_introl eq_refl) Ht Hd)).
+  rewrite Bool.eqb_reflx. exact IH'.
+Qed.
